@@ -11,7 +11,9 @@
    timeout of the implementation on any generated input is a VIOLATION with that input. *)
 From SC.Model Require Import Base Num Types Config Case Chrono UiTokens Rx Post Parser Items Interp
      RuleFns Rules Format Lexer Api.
-From SC.Proofs Require Import SessionLemmas C01_Parser C01.
+From Coq Require Import Floats.
+From SC.Model Require Import NumF64 Run64 Corr.
+From SC.Proofs Require Import SessionLemmas C01_Parser C01_Rewrite C01.
 
 (* lines are separated by LF or CRLF: one more line than there are breaks *)
 Theorem C01_lines : forall x, length (split_lines x []) = S (breaks x).
@@ -74,8 +76,76 @@ Theorem C01_unknown_language_constants : forall (cfg : config F) lang word,
   lang_constants cfg lang = None -> constant_of cfg lang word = Ok None.
 Proof. exact unknown_language_constants. Qed.
 
+(* ---- the rewrite loops (measure: active typed tokens; Proofs/C01_Rewrite.v) ---- *)
+(* every firing of a pattern of k >= 2 tokens replaces exactly k active typed tokens by one *)
+Theorem C01_fire_mu_exact : forall vs pat (l : list (token_info F)) m tok l',
+  find_match vs pat l = Ok m -> fm_total m = fm_rule_idx m ->
+  replace_match l m tok = Ok l' -> (mu l' + length pat = mu l + 1)%nat.
+Proof. exact fire_mu_exact. Qed.
+
+(* for ANY rule list whose patterns have at least two tokens the rule loop never exhausts a
+   fuel above the number of active typed tokens ... *)
+Theorem C01_rule_loop_terminates : forall bexec now_year line (cfg : config F) lang vs rules,
+  Forall rule_ok rules ->
+  forall fuel st, (mu (ts_infos st) < fuel)%nat ->
+  rule_loop bexec now_year fuel line cfg lang vs rules st <> Ok None.
+Proof. exact rule_loop_terminates. Qed.
+
+(* ... likewise the unit-recognition loop and the variable substitution (no variable's name
+   contains a token that a Variable token can match: names are the tokens left of '=') *)
+Theorem C01_dyn_loop_terminates : forall line (cfg : config F) vs,
+  cfg_units_ok cfg -> forall fuel st, (mu (ts_infos st) < fuel)%nat -> dyn_loop fuel line cfg vs st <> Ok None.
+Proof. exact dyn_loop_terminates. Qed.
+
+Theorem C01_variable_substitution_terminates : forall line (vs : vars F) st,
+  vars_ok vs -> update_token_variables line vs st <> Ok None.
+Proof. exact update_token_variables_terminates. Qed.
+
 End WithNum.
 
+(* side conditions on the configuration regenerated from config.json (finite tables): every rule
+   pattern of every language and every unit pattern has at least two tokens *)
+Theorem C01_default_rules_ok : cfg_rules_ok default_config.
+Proof. exact default_rules_ok. Qed.
+Theorem C01_default_units_ok : cfg_units_ok default_config.
+Proof. exact default_units_ok. Qed.
+
+(* hence, with the fuel Api.tokinize passes, none of its three loops runs out of fuel, for every
+   line, language and clock; and the same in every configuration reachable through the public
+   setters by a history that registers no one-token pattern *)
+Theorem C01_tokinize_loops_terminate : forall ck lang (vs : vars float) line,
+  vars_ok vs ->
+  (forall st3, update_token_variables line vs st3 <> Ok None) /\
+  (forall st4, dyn_loop (loop_fuel st4) line default_config vs st4 <> Ok None) /\
+  (forall st5, rule_tokinizer (basic_execute LX ck) (ck_year ck) (loop_fuel st5) line default_config lang vs st5 <> Ok None).
+Proof. exact tokinize_loops_terminate. Qed.
+
+Theorem C01_tokinize_loops_terminate_reachable : forall ck ops lang (vs : vars float) line,
+  history_ok ck init_state ops -> vars_ok vs ->
+  let cfg := m_cfg (final_state ck init_state ops) in
+  (forall st3, update_token_variables line vs st3 <> Ok None) /\
+  (forall st4, dyn_loop (loop_fuel st4) line cfg vs st4 <> Ok None) /\
+  (forall st5, rule_tokinizer (basic_execute LX ck) (ck_year ck) (loop_fuel st5) line cfg lang vs st5 <> Ok None).
+Proof. exact tokinize_loops_terminate_reachable. Qed.
+
+(* the side condition is necessary: a ONE-token custom rule whose result matches its own pattern
+   rewrites forever.  Outside the statement's configurations (separator / zone / number-format
+   setters), reachable through add_rule; the crate hangs on this history (observed by the harness
+   watchdog), the model predicts it. *)
+Theorem C01_single_token_rule_loops_refuted :
+  run CK0 init_state [OAddRule (s "en") [s "{NUMBER:x}"] (s "e1") REcho 0%float []; OExec (s "en") (s "5")]
+  = [MRet (Some true); MPanic SITE_OUT_OF_FUEL].
+Proof. exact c01_single_token_rule_hangs_model. Qed.
+
+Print Assumptions C01_fire_mu_exact.
+Print Assumptions C01_rule_loop_terminates.
+Print Assumptions C01_dyn_loop_terminates.
+Print Assumptions C01_variable_substitution_terminates.
+Print Assumptions C01_default_rules_ok.
+Print Assumptions C01_default_units_ok.
+Print Assumptions C01_tokinize_loops_terminate.
+Print Assumptions C01_tokinize_loops_terminate_reachable.
+Print Assumptions C01_single_token_rule_loops_refuted.
 Print Assumptions C01_lines.
 Print Assumptions C01_one_slot_per_line.
 Print Assumptions C01_execute_is_fold.
